@@ -17,6 +17,7 @@ CheckLayout(e) ==
   /\ Judge("C18", "EncodeViaPointer", e.encptr = e.enc, e.encptr, e.enc)      \* Marshal(&msg) = Marshal(msg)
   /\ (IF e.enc.t = "ok"
         THEN /\ Judge("C18", "RoundTrip", e.dec.t = "ok" /\ e.dec.v = e.vals, e.dec, e.vals)
+             /\ Judge("C18", "ReuseIndependent", e.decreuse.t = "none" \/ (e.decreuse.t = "ok" /\ e.decreuse.v = e.vals), e.decreuse, e.vals)
              /\ Judge("C18", "NoAlias", ~e.aliased, L, "decoded values share no memory with the input buffer")
              /\ Judge("C18", "TagsEnforced", e.decwrong.t = "err", e.decwrong, "a wrong function code / fixed value is refused")
         ELSE TRUE)
